@@ -69,7 +69,8 @@ inductive AVec
 /-- `v` represents the abstract vector `a` -/
 def VInv (ps : List Param) (v : Vec) : AVec → Prop
   | .live es => v.ps = ps ∧ Inv1 v es
-  | .moved => v.ps = ps ∧ v.mem = [] ∧ v.size = 0 ∧ v.poison = false ∧ (v.fixedLoc = true → storageAl v.ps ∣ v.loc.stride)
+  | .moved => v.ps = ps ∧ v.mem = [] ∧ v.size = 0 ∧ v.poison = false ∧ (v.fixedLoc = true → storageAl v.ps ∣ v.loc.stride) ∧
+      (v.fixedLoc = false → v.loc.last = 0)
 
 theorem VInv.ps_eq {ps : List Param} {v : Vec} {a : AVec} (h : VInv ps v a) : v.ps = ps := by
   cases a <;> exact h.1
@@ -179,7 +180,7 @@ theorem copy_refines (ps : List Param) (w : World) (A : Nat → Option AVec) (h 
           ⟨hva.1, hva.2.relocated w.junk rfl rfl rfl hva.2.clean⟩).of_vecs rfl
 
 theorem movedFrom_inv (ps : List Param) (v : Vec) (a : AVec) (h : VInv ps v a) : VInv ps v.movedFrom .moved := by
-  refine ⟨h.ps_eq, rfl, ?_, h.clean, ?_⟩
+  refine ⟨h.ps_eq, rfl, ?_, h.clean, ?_, fun _ => rfl⟩
   · unfold Vec.size; split <;> rfl
   · intro hf
     have hf' : v.fixedLoc = true := hf
@@ -189,7 +190,39 @@ theorem movedFrom_inv (ps : List Param) (v : Vec) (a : AVec) (h : VInv ps v a) :
       rcases h.2 with h1 | h1
       · rw [h1.notFixed] at hf'; exact absurd hf' (by simp)
       · exact h1.stride_dvd
-    | moved => exact h.2.2.2.2 hf'
+    | moved => exact h.2.2.2.2.1 hf'
+
+/-- **a moved-from vector is an empty vector**: it represents the empty sequence like any vector that never held an element
+    (no capacity, no block), so every operation of the interface applies to it as to any other empty vector -/
+theorem moved_is_empty (ps : List Param) (hl : ListOK ps) (v : Vec) (h : VInv ps v .moved) : VInv ps v (.live []) := by
+  obtain ⟨hps, hmem, hsz, hpo, hst, hlast⟩ := h
+  refine ⟨hps, ?_⟩
+  cases hf : v.fixedLoc with
+  | false =>
+    left
+    have hs0 : v.loc.size = 0 := by simpa [Vec.size, hf] using hsz
+    refine ⟨hps ▸ hl, hf, fun _ hx => absurd hx (by simp), by simpa using hs0, fun k hk => absurd hk (by simp), ?_,
+      Or.inl (by rw [hlast hf]; simp [rawEndOf]), hpo⟩
+    intro x; rw [hmem]; simp
+  | true =>
+    right
+    have hc0 : v.loc.count = 0 := by simpa [Vec.size, hf] using hsz
+    refine ⟨hps ▸ hl, hf, fun _ hx => absurd hx (by simp), by simpa using hc0, hst hf, fun _ hx => absurd hx (by simp), ?_, hpo⟩
+    intro x; rw [hmem]; simp
+
+/-- … hence in the abstract map a moved-from name may be read as the empty sequence: every theorem about histories that asks
+    for a live source or target applies to moved-from vectors too -/
+theorem WInv.moved_as_empty {ps : List Param} (hl : ListOK ps) {w : World} {A : Nat → Option AVec} (h : WInv ps w A) (k : Nat)
+    (hk : A k = some .moved) : WInv ps w (aset A k (some (.live []))) := by
+  intro i
+  by_cases hi : i = k
+  · subst hi
+    have := h i
+    simp only [aset, if_true]
+    cases hv : w.vecs i with
+    | none => rw [hv, hk] at this; exact absurd this (by simp)
+    | some v => rw [hv, hk] at this; exact moved_is_empty ps hl v this
+  · simp only [aset, hi, if_false]; exact h i
 
 theorem move_refines (ps : List Param) (w : World) (A : Nat → Option AVec) (h : WInv ps w A) (s d : Nat) (a : AVec)
     (hA : A s = some a) (hsd : s ≠ d) :
@@ -585,7 +618,7 @@ theorem clear_inv (ps : List Param) (hl : ListOK ps) (v : Vec) (a : AVec) (h : V
     · have := h1.step_noreloc (fun _ => 0) .clear ⟨trivial, trivial⟩ trivial
       exact Or.inr this
   | moved =>
-    obtain ⟨hps, hmem, hsz, hpo, hst⟩ := h
+    obtain ⟨hps, hmem, hsz, hpo, hst, _⟩ := h
     have hdr : v.destructRange 0 v.size = [] := by
       simp only [Vec.destructRange, hsz, Nat.sub_self, List.range_zero, List.map_nil, List.foldl_nil, hmem]
     cases hf : v.fixedLoc with
